@@ -337,7 +337,10 @@ impl Tree {
         assert!(free <= TREE_FRAMES, "{free}");
 
         // Check if transition is allowed by policy
-        if free == TREE_FRAMES && policy(self.class(), default, free) != Policy::Invalid {
+        if free == TREE_FRAMES
+            && !self.reserved()
+            && policy(self.class(), default, free) != Policy::Invalid
+        {
             self.set_class(default);
         }
         self.with_free(free)
